@@ -12,6 +12,7 @@ mod c14;
 mod sess;
 mod sessgen;
 mod c07;
+mod c09;
 mod drv;
 pub mod c13;
 mod c17;
@@ -41,6 +42,7 @@ fn main() {
         "C06" => drv::run_c06,
         "C07" => c07::run,
         "C08" => drv::run_c08,
+        "C09" => c09::run,
         "C11" => drv::run_c11,
         "C12" => drv::run_c12,
         "C13" => c13::run,
